@@ -159,18 +159,30 @@ func combine(test string, l []Set, queryLevel bool) Set {
 }
 
 func evalTM(tm TM, value string) Set {
+	if !validType(tm.Type) {
+		return Err
+	}
+	// The statement does not name a collation.  RFC 6352 section 10.5.4 makes i;unicode-casemap (case-insensitive)
+	// the default, the library compares octets; both readings are accepted, so a text match whose verdict depends
+	// on letter case alone decides nothing (it comes out as {T,F}).
+	r := evalTMWith(tm, value, func(s string) string { return s })
+	r |= evalTMWith(tm, value, strings.ToLower)
+	r |= evalTMWith(tm, value, strings.ToUpper)
+	return r
+}
+
+func evalTMWith(tm TM, value string, norm func(string) string) Set {
+	v, t := norm(value), norm(tm.Text)
 	var ok bool
 	switch tm.Type {
 	case "equals":
-		ok = value == tm.Text
+		ok = v == t
 	case "", "contains":
-		ok = strings.Contains(value, tm.Text)
+		ok = strings.Contains(v, t)
 	case "starts-with":
-		ok = strings.HasPrefix(value, tm.Text)
+		ok = strings.HasPrefix(v, t)
 	case "ends-with":
-		ok = strings.HasSuffix(value, tm.Text)
-	default:
-		return Err
+		ok = strings.HasSuffix(v, t)
 	}
 	if tm.Neg {
 		ok = !ok
